@@ -257,7 +257,10 @@ def run_concrete(h, case, j, tier='quick'):
     """execute the harness on fully concrete inputs (no solver involvement) -> output json or {'end': kind}"""
     eng = _mk_engine(h, tier)
     inp = h.conc_inputs(case, j)
-    outs = list(eng.explore(lambda e: h.run(e, case, inp), max_paths=4))
+    try:
+        outs = list(eng.explore(lambda e: h.run(e, case, inp), max_paths=4))
+    except Unsupported:
+        return {'end': 'forked'}
     if len(outs) != 1:
         return {'end': 'forked', 'n': len(outs)}
     kind, pc, out, dec, span = outs[0]
